@@ -421,7 +421,7 @@ func TestCellsRandom(t *testing.T) {
 	}
 	sp := specs()
 	e := theEnv(t)
-	vk.Check(t, 3200, 160000, func(rt *rapid.T, c *vk.Case) {
+	vk.Check(t, 3200, 96000, func(rt *rapid.T, c *vk.Case) {
 		m := us[rapid.IntRange(0, len(us)-1).Draw(rt, "method")]
 		vs := sp[m.key()]
 		if len(vs) == 0 {
